@@ -89,11 +89,31 @@ class TwoEndedLink(link.Link):
         all is well.  Except the access to a private method... but it seems the
         least bad option, IMO.
         """
-        v2 = self.v2
-        self.unlink_from(self.v1)
-        self._vertices = []
-        self.add_vertex(new)
-        self._vertices.append(v2)
+        self._replace_end(0, new)
+
+    def _replace_end(self, idx: int, new: Vertex):
+        """
+        Helper method to replace one end of this edge, in place.
+
+        The previous vertex at that end is detached only if it is not also
+        some other end of this edge (as in a self-loop), and every other end
+        is left exactly where it was.
+
+        :param idx: which end to replace; 0 for v1, 1 for v2
+        :param new: the vertex to put there
+        """
+        # both ends must exist; these raise IndexError otherwise, before
+        # anything has been changed
+        old = self.vertices[idx]
+        _ = self.vertices[1 - idx]
+
+        self._vertices[idx] = new
+
+        if (old is not None) and not any(v is old for v in self._vertices):
+            old.remove_from_link(self)
+
+        if (new is not None) and (self not in new.links):
+            new.add_to_link(self)
 
     @property
     def v2(self) -> Vertex:
@@ -119,10 +139,7 @@ class TwoEndedLink(link.Link):
         For a brief on why this exists, see
         :py:meth:`~edgegraph.structure.TwoEndedLink._set_v1`.
         """
-        v1 = self.v1
-        self.unlink_from(self.v2)
-        self._vertices = [v1]
-        self.add_vertex(new)
+        self._replace_end(1, new)
 
     def other(self, end: Vertex) -> Vertex | None:
         """
